@@ -113,6 +113,7 @@ func check(id, tier string) (code int) {
 		prop.Run(r)
 	}()
 	if tier == "thorough" {
+		variants(r, id, prop)
 		r.Sensitivity = sensitivity(id, prop)
 	}
 	return r.Finish()
@@ -138,4 +139,60 @@ func explain(path string) int {
 	}
 	fmt.Printf("re-running check %s on the current tree:\n", id)
 	return check(id, tier)
+}
+
+// buildVariants are the build tags under which the repository selects other source files
+// than the default build does (internal/util/safe.go replaces the unsafe string/byte
+// conversions under "appengine").
+var buildVariants = []string{"appengine"}
+
+// variants re-runs the property's rules on the tree as built under each alternative set
+// of build tags (thorough tier). An alarm that the default build does not raise is added
+// to the run, marked with the tags; everything else is only counted.
+func variants(r *core.Run, id string, prop *rules.Property) {
+	have := map[string]bool{}
+	for _, o := range r.Obls {
+		if o.Verdict == core.Violated || o.Verdict == core.Undecided {
+			have[o.Rule+"|"+o.Construct] = true
+		}
+	}
+	savedNorm := append([]string(nil), core.Normalised...)
+	savedRen := map[string]string{}
+	for k, v := range core.Renames {
+		savedRen[k] = v
+	}
+	for _, tags := range buildVariants {
+		p2, err := core.LoadWithTags(tags)
+		if err != nil {
+			r.Notes = append(r.Notes, fmt.Sprintf("build variant -tags=%s: cannot be loaded: %v", tags, err))
+			continue
+		}
+		r2 := core.NewRun(p2, id, r.Tier)
+		r2.Quiet = true
+		func() {
+			defer func() {
+				if e := recover(); e != nil {
+					r2.Unknown("analyser", "panic", "-", fmt.Sprintf("analyser panic: %v", e))
+				}
+			}()
+			prop.Run(r2)
+		}()
+		extra := 0
+		for _, o := range r2.Obls {
+			if (o.Verdict == core.Violated || o.Verdict == core.Undecided) && !have[o.Rule+"|"+o.Construct] {
+				o.Construct += " [build -tags=" + tags + "]"
+				r.Obls = append(r.Obls, o)
+				extra++
+			}
+		}
+		r.Notes = append(r.Notes, fmt.Sprintf("build variant -tags=%s: %d packages, %d obligations, %d alarms not raised by the default build", tags, len(p2.Pkgs), len(r2.Obls), extra))
+	}
+	// the evidence reports the default build's rename/normalisation records
+	core.Normalised = savedNorm
+	for k := range core.Renames {
+		delete(core.Renames, k)
+	}
+	for k, v := range savedRen {
+		core.Renames[k] = v
+	}
 }
